@@ -451,7 +451,7 @@ Section TP.
       destruct r as [i|].
       + destruct Hfr as [[k' v'] [Hat Hk]]. simpl in Hk. subst k'.
         assert (Hocc : occupied (slots t) < length (slots t)) by (unfold TableModel.nslots in *; lia).
-        destruct (delete_at_spec K entry fst swap swap_le (hmn (nslots t)) (slots t) i _ _ Hc Hat Hocc)
+        destruct (delete_at_spec K entry fst (hmn (nslots t)) (slots t) i _ _ Hc Hat Hocc)
           as [l' [Hd [Hc' [Hlen [Hh Ho]]]]].
         unfold rh_delete. rewrite Hd.
         set (t1 := mkT l' (pred (nitems t))).
